@@ -164,7 +164,7 @@ class T:
     def __abs__(s): s._no('abs()')
     def __floordiv__(s, o): s._no('//')
     def __mod__(s, o): s._no('%')
-    def __iter__(s): s._no('iteration')
+    __iter__ = None          # like a float: isinstance(x, Iterable) is False, iter(x) raises TypeError
     def __len__(s): s._no('len()')
     def __getitem__(s, k): s._no('subscript')
 
